@@ -78,7 +78,9 @@ func (se *SessionExecutor) handleQuery(reqCtx *util.RequestContext, sql string) 
 		// if non-transaction connection is limited, gaea will not close client connection
 		err = fmt.Errorf(mysql.ErrClientQpsLimitedMsg)
 	} else {
-		if ns.supportMultiQuery && se.session.c.capability&mysql.ClientMultiStatements != 0 {
+		// the text of an executed prepared statement is one statement by definition: it is never
+		// split at semicolons (a bound value may contain them)
+		if ns.supportMultiQuery && se.session.c.capability&mysql.ClientMultiStatements != 0 && !reqCtx.IsPrepareSQL() {
 			r, err = se.doMultiStmts(reqCtx, sql)
 		} else {
 			r, err = se.doQuery(reqCtx, sql)
